@@ -1,5 +1,5 @@
 """C03 — type mismatches are rejected at compile time (DESIGN §4 C03)."""
-from hir import nodes, walk, fn_body, callee, last, line_of, peel, pp, norm_path, pat_alternatives, pat_variant
+from hir import nodes, walk, fn_body, callee, call_args, last, line_of, peel, pp, norm_path, pat_alternatives, pat_variant, pat_bindings
 from engines import Visit, matches_on, arm_alternatives, ty_mentions, ty_is
 from flow import Flow
 import tc
@@ -505,6 +505,7 @@ def run(F, rep, tier):
     c02.copy_structure(F, rep)
     # a parameter (or mutable variable) of function type has one type: `f(1)` then `f("a")` is a mismatch
     c02.copy_discipline(F, rep, only_generalised=True)
+    type_variables_shared(F, rep)
     unification_core(F, rep)
     pairing(F, rep)
     declared_types_known(F, rep)
@@ -632,6 +633,41 @@ def declared_types_known(F, rep):
            "inner_resolve_type's UserType arm accepts a named declaration whose type is still Unknown and returns a fresh "
            "unconstrained node: the annotation then means `anything`.  With declarations ordered by their field types this "
            "remains for a type that mentions itself (the self edge is dropped)", line_of(quiet) if quiet else firt["sp"])
+
+
+def type_variables_shared(F, rep, rule="TYPEVAR"):
+    """`*A` written twice in one signature is one type variable: inner_resolve_type keeps a map name -> node (`seen`) and has
+    to hand *that* map on to every recursive call - a clone or a fresh map for a nested function type makes the `*OUT` inside
+    `fn *ITEM -> *OUT` and the `[*OUT]` after it two unrelated unknowns (`list.map` then returns a list of anything)."""
+    firt = F.fn(TC + "inner_resolve_type")
+    rep.analysed(firt)
+    fl = Flow(firt, fn_body(firt))
+    seen_prm = None
+    for i, prm in enumerate(firt["params"]):
+        if "HashMap<" in prm["ty"] or "BTreeMap<" in prm["ty"]:
+            bs = pat_bindings(prm["pat"])
+            seen_prm = (i, bs[0]["hid"]) if bs else None
+    if seen_prm is None:
+        rep.anchor_missing("the type-variable map parameter of inner_resolve_type")
+        return
+    n = bad = 0
+    where = None
+    for c in nodes(fn_body(firt), "MethodCall"):
+        if callee(c) != TC + "inner_resolve_type":
+            continue
+        n += 1
+        a = peel(call_args(c)[seen_prm[0]])
+        while a.get("k") in ("AddrOf",) or (a.get("k") == "Unary" and a.get("op") == "Deref"):
+            a = peel(a["e"])
+        if not (a.get("k") == "Path" and a.get("res") == "Local" and a["hid"] == seen_prm[1]):
+            bad += 1
+            where = where or line_of(c)
+    rep.ob(rule, "inner_resolve_type|one-map-per-signature", n > 0 and bad == 0,
+           "all %d recursive calls of inner_resolve_type pass on the map of type variables they were given" % n if bad == 0 and n else
+           "%d of %d recursive calls of inner_resolve_type get another map than the one of the signature being resolved (a clone, "
+           "a new map): a type variable first named inside a nested function type is not the same variable outside it" % (bad, n),
+           where or firt["sp"], sites=n)
+    rep.floor(rule, "recursive calls of inner_resolve_type", n, 4)
 
 
 def pairing(F, rep):
